@@ -95,7 +95,7 @@ claim('C17',
 
 claim('C06',
       "Power-of-two bases 2,4,...,256, unbounded in the operand length (inductive invariants, one unit per base, the real mp_bases table linked in): "
-      "mpn_get_str returns exactly D = ceil(bitlength/k) digits and digit j is the k-bit field [(D-1-j)k, (D-j)k) of the operand, for EVERY j (ghost digit "
+      "mpn_get_str returns exactly D digits, D being the unique count with (D-1)k < bitlength <= Dk (a ghost pinned by these two inequalities: no division by k in the specification), and digit j is the k-bit field [(D-1-j)k, (D-j)k) of the operand, for EVERY j (ghost digit "
       "index), incl. fields that straddle two limbs and the zero-padded top digit; mpn_set_str places EVERY digit in its k-bit field of the result, writes "
       "exactly the full limbs plus a non-zero partial top limb, no bit at or above len*k - the two contracts are inverse relations, so the round trip is exact. "
       "mpz_sizeinbase is the exact digit count ceil(bitlength/k), 1 for zero.",
